@@ -9,12 +9,16 @@ Init == /\ g \in [Nodes -> SUBSET Nodes]
         /\ vo \in Perms /\ no \in Perms
 Next == UNCHANGED vars
 Spec == Init /\ [][Next]_vars
+\* graphs only (behaviour generation for whole code generations: the visiting orders are the real
+\* interpreter's, under several hash seeds)
+Sorted == SetToSortSeq(Nodes, <)
+InitGraphs == g \in [Nodes -> SUBSET Nodes] /\ vo = Sorted /\ no = Sorted
+SpecGraphs == InitGraphs /\ [][Next]_vars
 \* every visiting order yields the strongly connected components, and nothing else
 InvConfluentScc == SccSet(g, vo, no) = TrueSccs(g)
 \* components come out in an order where a component never precedes one it depends on (what
 \* group_by_strong_components relies on is only the SET; recorded for the trace check)
 NoSelfLoops == \A v \in Nodes : v \notin g[v]
-Sorted == SetToSortSeq(Nodes, <)
 EmitGraph == (vo = Sorted /\ no = Sorted) =>
    PrintT(<<"GRAPH", ToJson([edges |-> [v \in Nodes |-> SetToSortSeq(g[v], <)], sccs |-> {SetToSortSeq(c, <) : c \in TrueSccs(g)},
                               topo |-> TopoFlatten(g).list, cyclic |-> TopoFlatten(g).cyclic])>>)
